@@ -1069,3 +1069,8 @@ Proof.
     { destruct (mcur md) as [id|]; [destruct (id =? -1)|]; inversion Hans; reflexivity. }
     subst ans. destruct a; reflexivity.
 Qed.
+
+(* ================================================================ C14_history_independent *)
+Theorem history_independent : forall E history st a o d,
+  last (read_session E (history ++ [(st, a, o)])) d = read_current E st a o.
+Proof. intros E history st a o d. unfold read_session. rewrite map_app. simpl. apply last_last. Qed.
